@@ -80,6 +80,8 @@ type PathResult struct {
 	MaxLoop    int
 	Sample     string
 	Durations  []string
+	CrossChecked int
+	CrossUnknown int
 }
 
 type Exec struct {
